@@ -256,6 +256,63 @@ func jobsFor(t *testing.T, prop, tier string, seed uint64) []job {
 	return js
 }
 
+func sweepCalm(c *RunCfg) {
+	c.Calm, c.FaultP, c.LatencyP, c.CrashP, c.BoundaryCrashP = false, 0, 0, 0, 0
+	if c.MaxLives < 2 {
+		c.MaxLives = 2
+	}
+}
+
+// sweepJobs: the single-fault sweep for one base seed — run it fault-free to
+// enumerate its seam calls, then once per (call x applicable fault kind, crash
+// before, crash after).
+func sweepJobs(t *testing.T, prop, tier string, seed uint64, maxScans, maxJobs int) []job {
+	calmify := sweepCalm
+	base := RunOne(t, RunSpec{Seed: seed, Prop: prop, Tier: tier, MaxScans: maxScans, RecordKeys: true, Mutate: calmify}, newStats())
+	if base.HarnessErr != "" || base.Rejected {
+		return nil
+	}
+	var js []job
+	for _, key := range base.CallKeys {
+		slash, hash := strings.Index(key, "/"), strings.LastIndex(key, "#")
+		op := key[slash+1 : hash]
+		kinds := append([]string{}, faultsByOp[op]...)
+		kinds = append(kinds, FCrashBefore)
+		if isMutating(op) {
+			kinds = append(kinds, FCrashAfter)
+		}
+		for _, kind := range kinds {
+			if kind == FLatency || kind == FThrottle {
+				continue
+			}
+			key, kind := key, kind
+			force := map[string]string{key: kind}
+			j := job{driver: "controller", seed: seed, force: force, variant: "sweep"}
+			j.run = func(replay map[string][]uint32, ms int, st *Stats) *RunResult {
+				if ms == 0 || ms > maxScans {
+					ms = maxScans
+				}
+				st.Probe("single-fault-sweep run")
+				return RunOne(t, RunSpec{Seed: seed, Prop: prop, Tier: tier, Replay: replay, MaxScans: ms, Mutate: func(c *RunCfg) {
+					calmify(c)
+					c.ForceFault[key] = kind
+				}}, st)
+			}
+			js = append(js, j)
+		}
+	}
+	if len(js) > maxJobs {
+		// spread evenly over the run
+		step := float64(len(js)) / float64(maxJobs)
+		var pick []job
+		for i := 0; i < maxJobs; i++ {
+			pick = append(pick, js[int(float64(i)*step)])
+		}
+		js = pick
+	}
+	return js
+}
+
 func pairJob(t *testing.T, prop, tier string, seed uint64, v PairVariant) job {
 	vb, _ := json.Marshal(v)
 	j := job{driver: "pair", seed: seed, variant: string(vb)}
@@ -319,6 +376,20 @@ func WorkerMain(t *testing.T, prop, tier string, lo, hi uint64, budget time.Dura
 		rep.SeedHi = seed
 		for _, j := range jobsFor(t, prop, tier, seed) {
 			handle(j)
+		}
+		// single-fault sweep on a sample of base seeds
+		every, ms, mj := uint64(40), 12, 120
+		if tier == "thorough" {
+			every, ms, mj = 12, 40, 1500
+		}
+		if (seed-lo)%every == 3 {
+			for _, j := range sweepJobs(t, prop, tier, seed, ms, mj) {
+				if time.Since(start) > budget {
+					break
+				}
+				handle(j)
+			}
+			rep.Extra["sweep-base-seeds"]++
 		}
 	}
 	rep.fill(st)
@@ -424,7 +495,11 @@ func ReplayMain(t *testing.T, path string, verbose bool) (reproduced bool, msg s
 		spec := RunSpec{Seed: rf.RunSeed, Prop: rf.Property, Tier: rf.Tier, Replay: streams, MaxScans: rf.MaxScans, KeepLog: verbose}
 		if len(rf.Force) > 0 {
 			force := rf.Force
+			sweep := rf.Variant == "sweep"
 			spec.Mutate = func(c *RunCfg) {
+				if sweep {
+					sweepCalm(c)
+				}
 				for k, v := range force {
 					c.ForceFault[k] = v
 				}
